@@ -2487,6 +2487,7 @@ class XonshParser(Parser):
             (self.token, "FSTRING_END"),
         )
 
+    @memoize
     def cmd_group(self) -> Any | None:
         # cmd_group: ('(' | '!(' | '$(') ((cmd_group | any_cmd))* ')' | ('[' | '![' | '$[') ((cmd_group | any_cmd))* ']' | ('{' | '${') ((cmd_group | any_cmd))* '}'
         mark = self._mark()
